@@ -88,9 +88,13 @@ class BufferedPipe:
         """
         self._lock.acquire()
         try:
-            if self._event is not None:
+            data = b(data)
+            # an empty chunk (e.g. a zero-length CHANNEL_DATA message) adds
+            # nothing to read: only announce data that is really there, so
+            # the event keeps meaning "a read would not block"
+            if self._event is not None and len(data) > 0:
                 self._event.set()
-            self._buffer_frombytes(b(data))
+            self._buffer_frombytes(data)
             self._cv.notify_all()
         finally:
             self._lock.release()
